@@ -29,6 +29,18 @@ func hostDo(what string, f func()) (out string) {
 	return ""
 }
 
+// hostReturns: f must come back (within 2 s — the calls it makes do no work); a call that blocks wedges the host.
+func hostReturns(what string, f func()) string {
+	done := make(chan string, 1)
+	go func() { done <- hostDo(what, f) }()
+	select {
+	case r := <-done:
+		return r
+	case <-time.After(2 * time.Second):
+		return "wedged-host " + what
+	}
+}
+
 // hostRenderErr: everything a caller may do with the error value it got back.
 func hostRenderErr(err error) string {
 	if err == nil {
@@ -253,6 +265,55 @@ func init() {
 
 var c05ExprShapeNames []string
 var c05ShapeIdxLate []c05Shape
+
+// integers at the limits of a character code / a byte, among them values whose LOW 32 (8) bits are a valid
+// code (byte): a conversion that truncates before (or instead of) the range check lets them through
+var c05CodeInts = []struct {
+	name string
+	v    int64
+}{
+	{"c.wrap", 1<<32 + 'a'}, {"c.wrapneg", -(1 << 32) + 'a'}, {"c.wrap2", 1<<40 + 0x1F600}, {"c.surr", 0xD800},
+	{"c.max", 0x10FFFF}, {"c.byte", 256 + 'a'}, {"c.i32", 1<<31 + 'a'},
+}
+var c05CodeShapeNames []string
+
+func init() {
+	for _, ci := range c05CodeInts {
+		ci := ci
+		c05CodeShapeNames = append(c05CodeShapeNames, ci.name, ci.name+".l")
+		c05ShapeIdxLate = append(c05ShapeIdxLate,
+			c05Shape{ci.name, func(*c05Ctx) engine.Term { return engine.Integer(ci.v) }},
+			c05Shape{ci.name + ".l", func(*c05Ctx) engine.Term { return engine.List(engine.Integer(ci.v)) }})
+	}
+}
+
+// c05CodeRows: every code shape in every argument position of every procedure of arity 1..5, the other
+// arguments unbound / an output stream. Complete and seed-independent in both tiers.
+func c05CodeRows() []string {
+	v, so := c05ShapeIdx["var"], c05ShapeIdx["sout"]
+	var out []string
+	for _, p := range c05Procs() {
+		if c05Excluded(p) || p.arity == 0 || p.arity > 5 {
+			continue
+		}
+		for pos := 0; pos < p.arity; pos++ {
+			for _, n := range c05CodeShapeNames {
+				for _, other := range []int{v, so} {
+					if other == so && p.arity == 1 {
+						continue
+					}
+					vec := make([]int, p.arity)
+					for k := range vec {
+						vec[k] = other
+					}
+					vec[pos] = c05ShapeIdx[n]
+					out = append(out, c05Case(p, vec))
+				}
+			}
+		}
+	}
+	return out
+}
 
 // c05BaseCount: the shapes of c05.go (the cross-product matrix runs over these only)
 var c05BaseCount int
